@@ -220,6 +220,9 @@ func sampleEngine(rng *Rand, long bool) EngineConfig {
 		if rng.Bool(0.3) {
 			c.PCrash = 0.04 * rng.Float()
 		}
+		if rng.Bool(0.5) {
+			c.PFailTail = 0.04 * rng.Float()
+		}
 	}
 	c.DeltaMode = []string{"const", "jitter", "jitter", "heavy", "heavy", "nano"}[rng.Intn(6)]
 	c.OneTxBlocks = rng.Bool(0.1)
@@ -386,6 +389,13 @@ func (w *World) buildTx(tp *TxPlan) ([]byte, error) {
 	signer := w.A(tp.Ops[0].Actor)
 	var msgs []sdk.Msg
 	for _, op := range tp.Ops {
+		if op.Mod == "engine" && op.Kind == "failtail" {
+			// a message that is valid for the ante handler and fails at execution: the whole
+			// transaction, including the messages before it, must roll back
+			impossible := sdk.NewCoins(sdk.NewCoin(sdk.DefaultBondDenom, newSdkInt(new(big.Int).Lsh(big.NewInt(1), 250))))
+			msgs = append(msgs, banktypes.NewMsgSend(signer.Addr, signer.Addr, impossible))
+			continue
+		}
 		m := w.modIdx[op.Mod]
 		if m == nil {
 			return nil, fmt.Errorf("module %s not in this run", op.Mod)
@@ -524,6 +534,13 @@ func (w *World) execBlock(bp *BlockPlan) bool {
 			Code: r.Code, Codespace: r.Codespace, Log: r.Log, GasWanted: r.GasWanted, GasUsed: r.GasUsed,
 			Events: r.Events, Sheet: SheetOf(r.Events)}
 		tr.Infra = r.Code != 0 && isInfraFailure(r.Code, r.Codespace, r.Log)
+		if hasFailTail(tp) {
+			if r.Code == 0 {
+				Fatal("a transaction with a deliberately failing tail message was accepted")
+			}
+			tr.Infra = true
+			w.Hit("fault.failing_tail_msg")
+		}
 		if r.Code == 0 {
 			var md sdk.TxMsgData
 			if err := md.Unmarshal(r.Data); err == nil {
@@ -535,7 +552,7 @@ func (w *World) execBlock(bp *BlockPlan) bool {
 		w.noteTx(tr)
 		seen := map[string]bool{}
 		for _, op := range tp.Ops {
-			if !seen[op.Mod] {
+			if !seen[op.Mod] && op.Mod != "engine" {
 				seen[op.Mod] = true
 				w.curOp = op.ID
 				w.modIdx[op.Mod].OnTx(w, tr)
@@ -754,6 +771,11 @@ func (w *World) generate(rng *Rand) {
 			w.Hit("transport.shuffled_blocks")
 		}
 		for _, tp := range txs {
+			if !tp.NoOOG && w.Cfg.PFailTail > 0 && rng.Bool(w.Cfg.PFailTail) {
+				w.nextOp++
+				tp.Ops = append(tp.Ops, &Op{ID: w.nextOp, Mod: "engine", Kind: "failtail", Actor: tp.Ops[0].Actor})
+				continue
+			}
 			if !tp.NoOOG && w.Cfg.POOG > 0 && rng.Bool(w.Cfg.POOG) {
 				if mx := w.gasMax[txKind(tp)]; mx > gasFloor+1000 {
 					tp.Gas = gasFloor + uint64(rng.Int63n(int64(mx-gasFloor)))
@@ -823,6 +845,15 @@ func (w *World) generate(rng *Rand) {
 	if !w.execBlock(&BlockPlan{DeltaNs: 5 * int64(time.Second), Phase: "epilogue"}) {
 		return
 	}
+}
+
+func hasFailTail(tp *TxPlan) bool {
+	for _, op := range tp.Ops {
+		if op.Mod == "engine" && op.Kind == "failtail" {
+			return true
+		}
+	}
+	return false
 }
 
 func cloneTx(tp *TxPlan) *TxPlan {
